@@ -73,7 +73,7 @@ def hist_features(h):
     for a in h:
         f = a["act"]
         if f == "Derive":
-            f += ":" + a["op"]
+            f += ":" + a["op"] + (":kw" if "'p':['a']" in str(a["t"]).replace(" ", "").replace('"', "'") else "")
         elif f == "MetaData":
             f += ":empty" if not a["t"]["a"] else ":nonempty"
         elif f == "ValueStart":
